@@ -597,6 +597,11 @@ def _enum_basic():
     yield {"sub": "history", "accounts": 2, "autotrust": [False, None], "seed": 5,
            "ops": [["send", 0, 0], ["send", 1, 0], ["reinstall", 1], ["send", 0, 0], ["set_autotrust", 0, True], ["send", 0, 0], ["send", 1, 0],
                    ["set_autotrust", 0, False], ["reinstall", 1], ["send", 0, 0], ["restart", 0], ["send", 1, 0]]}
+    # the same contact reinstalls twice; each time its first message is how the owner learns of the new identity
+    for at in ([True, True], [True, False], [False, False]):
+        yield {"sub": "history", "accounts": 2, "autotrust": at, "seed": 6,
+               "ops": [["send", 0, 0], ["send", 1, 0], ["reinstall", 1], ["send", 1, 0], ["send", 0, 0], ["reinstall", 1], ["send", 1, 0], ["send", 0, 0],
+                       ["reinstall", 1], ["send", 1, 0], ["restart", 0], ["send", 1, 0]]}
     yield {"sub": "history", "accounts": 3, "autotrust": [False, False, True], "seed": 2,
            "ops": [["send", 0, 0], ["send", 0, 1], ["send", 2, 0], ["reinstall", 0], ["send", 0, 0], ["send", 0, 1], ["send", 1, 0], ["send", 2, 0],
                    ["restart", 1], ["send", 0, 0]]}
